@@ -267,7 +267,7 @@ func main() {
 	allShapes := shapes(r.Pick(1, 2))
 	deepShapes := shapes(r.Pick(2, 3))
 	if r.Replay != "" {
-		r.Fault("replay: run the session named in the replay file by hand (see detail.session); not implemented")
+		r.ReplayBySearch()
 	}
 	if idx, n, arg, ok := r.Worker(); ok {
 		_ = arg
